@@ -14,6 +14,7 @@ import (
 	"fmt"
 	"io"
 	"testing"
+	"time"
 
 	"pgregory.net/rapid"
 
@@ -165,7 +166,14 @@ func eval(c Case) (f *pbt.Fail) {
 			return nil
 		}
 	}
-	err := jpeg.ScanJPEG(br, exifCB, xmpCB)
+	done := make(chan error, 1)
+	go func() { done <- jpeg.ScanJPEG(br, exifCB, xmpCB) }()
+	var err error
+	select {
+	case err = <-done:
+	case <-time.After(30 * time.Second): // nominal: well under a millisecond
+		return pbt.Failf("hang", "ScanJPEG did not return within 30 s on a well-formed %d-byte marker stream (%d segments, exif callback %s, xmp callback %s)", len(m.stream), len(c.Segs), c.ExifRead, c.XMPRead)
+	}
 	desc := fmt.Sprintf("%d segments, exif callback %s, xmp callback %s", len(c.Segs), c.ExifRead, c.XMPRead)
 	if err != nil {
 		return pbt.Failf("error", "ScanJPEG returned %v on a well-formed marker stream (%s)", err, desc)
@@ -334,6 +342,15 @@ func genWith(fill bool) func(rt *rapid.T) Case {
 				s = gen.Seg{Marker: 0xE1, Payload: append([]byte(gen.XMPExtPrefix), rapid.SliceOfN(rapid.Byte(), 40, 300).Draw(rt, "xmpext")...), Kind: "xmpext"}
 			case k == 5:
 				s = gen.Seg{Marker: byte(rapid.SampledFrom([]int{0xC0, 0xC1, 0xC2}).Draw(rt, "sof")), Payload: []byte{8, 0, 16, 0, 16, 1, 1, 0x11, 0}, Kind: "sof"}
+			case k == 6 && gen.Chance(rt, "maxlen?", 0.4):
+				// a segment at and just below the largest length a 16-bit length field can state, full of marker look-alikes
+				n := rapid.SampledFrom([]int{65533, 65533, 65532, 65531, 65530, 65279, 32768, 32767}).Draw(rt, "maxlen")
+				p := make([]byte, n)
+				pat := append(append([]byte{0xFF, 0xE1, 0x00, 0x20}, gen.ExifPrefix...), []byte("II*\x00\x08\x00\x00\x00\xFF\xDB\x00\x43\xFF\xD9\xFF\xD8zz")...)
+				for i := range p {
+					p[i] = pat[i%len(pat)]
+				}
+				s = gen.Seg{Marker: rapid.SampledFrom([]byte{0xE0, 0xE2, 0xE5, 0xED, 0xEF, 0xFE}).Draw(rt, "maxm"), Payload: p, Kind: "other"}
 			default:
 				s = gen.OtherSeg(rt, "other")
 			}
@@ -377,7 +394,7 @@ func init() { pbt.Register(chk); pbt.Register(chkFill) }
 
 func TestProp(t *testing.T) {
 	defer rec.MustWrite()
-	rec.Rule("marker streams SOI, S1..Sn (n <= 12), DQT, >= 70 bytes of image data with Si from {APP0 JFIF, COM, near-miss APP1 prefixes, ICC APP2, Photoshop APP13, DRI, Exif-looking payloads under other markers, APP3..APP15 with random payloads incl. 0xFF bytes and nested SOI/EOI, XMP-extension APP1, SOF0-2, up to two Exif-APP1 (random TIFF blocks with embedded thumbnails, or encoder output for the library's reader) and up to two XMP-APP1 of 0..65000 bytes}; " +
+	rec.Rule("marker streams SOI, S1..Sn (n <= 12), DQT, >= 70 bytes of image data with Si from {APP0 JFIF, COM, near-miss APP1 prefixes, ICC APP2, Photoshop APP13, DRI, Exif-looking payloads under other markers, APP3..APP15 with random payloads incl. 0xFF bytes and nested SOI/EOI, segments at and just below the largest statable length (0xFFFF) filled with marker look-alikes, XMP-extension APP1, SOF0-2, up to two Exif-APP1 (random TIFF blocks with embedded thumbnails, or encoder output for the library's reader) and up to two XMP-APP1 of 0..65000 bytes}; " +
 		"callbacks: Exif reads its declared length in generated pieces / is the library's DecodeJPEGIfd / is nil; XMP reads nothing / a prefix / everything / everything in odd pieces / is nil; caller's bufio.Reader of 4 KiB..64 KiB. " +
 		"oracle (computed by the writer): callbacks run exactly for the metadata segments, in order; header byte order, first-IFD offset, absolute TIFF offset and length; bytes readable inside each callback == payload, then EOF; error nil; the caller's reader stands just after the DQT segment. " +
 		"non-trivial = >= 2 metadata segments, or one preceded by >= 2 other segments, with an XMP callback that under-reads (or no XMP segment); distinct by (stream, callback behaviour)")
